@@ -3001,6 +3001,12 @@ void narrow_ranges(char const *tn)
 // increment after a break.
 struct istream_range
 {
+  // (the member types a range usually has - code that asks a range for them must find them)
+  using iterator = std::istream_iterator<int>;
+  using const_iterator = iterator;
+  using value_type = int;
+  using size_type = std::size_t;
+  using difference_type = std::ptrdiff_t;
   std::istringstream *in;
   std::istream_iterator<int> begin() const { return std::istream_iterator<int>(*in); }
   std::istream_iterator<int> end() const { return std::istream_iterator<int>(); }
@@ -3026,6 +3032,11 @@ struct queue_iter
 };
 struct queue_range
 {
+  using iterator = queue_iter;
+  using const_iterator = queue_iter;
+  using value_type = int;
+  using size_type = std::size_t;
+  using difference_type = std::ptrdiff_t;
   std::deque<int> *q;
   queue_iter begin() const { return queue_iter{q}; }
   queue_iter end() const { return queue_iter{}; }
